@@ -10,6 +10,14 @@ CHECKS = {
             "reference-model runtime monitor: generated programs run by the real engine (Script.Add/Compile/RunContext/GetAll) and by an independent tree-walking reference interpreter executed next to it; outcome (globals, error kind) compared per program; VM probe records opcode coverage",
             "Each generated program (whole grammar, all builtins, host inputs of every runtime type, plus directed compositions) is executed by the real compiler+VM and by the reference interpreter under 4 map-order/append-capacity policies; final globals are compared structurally and errors by message. Programs whose outcome depends on an open choice are discarded and counted. Held on the programs listed in evidence; the model is an oracle, not a proof.",
             "Trusted: the parser (AST shared by both sides), harness/ref (the model; characterised rules in harness/ref/CHARACTERISED.md). Limits 64 KiB for strings/bytes on both sides; budget-exceeding runs are inconclusive."),
+    "C03": ("translation_validation",
+            "differential runtime monitor + assertion on hooked optimizer state: every program compiled with and without dead-code elimination (build-tagged hook) and both run under the VM probe; optimizeFunc's own tables checked against an independently recomputed CFG",
+            "Per program: (a) optimized and keep-dead twins are compiled in one process and run; globals, full error text and every trace position must be identical; (b) for every optimizeFunc invocation the hook delivers the original stream, the position map, the new stream and both source maps, and the monitor asserts that nothing removed is CFG-reachable, every kept jump points at the image of its target, source-map entries travel with their instruction and order/content is preserved. Held on the programs listed in evidence.",
+            "Trusted: the keep-dead hook (same compiler, pass 2 disabled); the reference model only as a filter for order-dependent programs."),
+    "C12": ("translation_validation",
+            "differential runtime monitor over bytecode variants (raw / RemoveDuplicates / Encode+Decode / original after Encode) run through NewVM.Run under the probe, plus invariant check of the de-duplicated constant pool",
+            "Per program (repeated literals, closures, a source module imported from several places, builtin modules, byte-identical functions): three fresh compilations are post-processed like Script.Compile and cmd/tengo do and run; globals, error text and positions must equal the raw run; CONST/CLOSURE operands are range/type checked and no two de-duplicable constants may be equal; the original is re-run and re-encoded after Encode. Held on the programs listed in evidence.",
+            "Trusted: gob (encoding), the reference model only as a filter for order-dependent programs."),
     "C17": ("exploration",
             "differential runtime monitor: fmt.Sprintf as executable oracle over generated directives, 3 entry points, small-MaxStringLen family, totality under recover",
             "Every generated format call is executed by the real formatter (tengo.Format, builtin format, fmt.sprintf in a compiled script) and its text is compared byte-for-byte with fmt.Sprintf on the corresponding Go values; arbitrary format bytes and all object kinds are run under recover for totality; a family runs with MaxStringLen in {16,64,300} and requires text equality or ErrStringLimit exactly when Go's text exceeds the limit. Held on the executions listed in evidence, nothing is proved.",
